@@ -1403,10 +1403,45 @@ class ModelBuilder:
         # Apply attributes to the created object
         self._apply_property_attributes(obj, attributes, prop_type)
 
+    @staticmethod
+    def _merge_allocate_statements(attributes: list[Any]) -> list[Any]:
+        """Several 'allocate' statements in one body are one allocation that names all of them.
+
+        A statement with options is stored as a dict and a plain one as a list of ids; the
+        scheduler reads either one dict or one plain list, so a body that mixes the two forms
+        (or repeats the dict form) is folded into a single dict here.
+        """
+        statements = [a[1] for a in attributes if isinstance(a, tuple) and a[0] == "allocate"]
+        if len(statements) < 2 or not any(isinstance(v, dict) for v in statements):
+            return attributes
+        resources: list[Any] = []
+        options: dict[str, Any] = {}
+        for value in statements:
+            if isinstance(value, dict):
+                resources.extend(value.get("resources", []))
+                for opt_key, opt_value in value.get("options", {}).items():
+                    if isinstance(opt_value, list) and isinstance(options.get(opt_key), list):
+                        options[opt_key] = options[opt_key] + opt_value
+                    else:
+                        options[opt_key] = opt_value
+            else:
+                resources.extend(value if isinstance(value, list) else [value])
+        merged: list[Any] = []
+        placed = False
+        for attr in attributes:
+            if isinstance(attr, tuple) and attr[0] == "allocate":
+                if not placed:
+                    merged.append(("allocate", {"resources": resources, "options": options}))
+                    placed = True
+                continue
+            merged.append(attr)
+        return merged
+
     def _apply_property_attributes(
         self, obj: Union[Task, Resource, Any], attributes: list[Any], prop_type: str
     ) -> None:
         """Apply attributes to a property object."""
+        attributes = self._merge_allocate_statements(attributes)
         # attribute -> {scenario index: value} given with a scenario prefix ('delayed:effort 40d')
         scenario_overrides: dict[str, dict[int, Any]] = {}
         for attr in attributes:
